@@ -341,11 +341,14 @@ def lint_small_body(prog):
     """A-small program inside a function with an unused argument, an unused variable and a pointless statement."""
     body = small.decode(prog)
     inner = [s for s in body]
-    return [('func', 'hh', ['pa', 'pb'], False,
+    return [('func', 'hh', ['pa', 'pb', 'pc'], False,
              [('assign', 'uv', ('num', 1)), ('expr', ('bin', '+', ('var', 'pa'), ('num', 1))),
+              # a parameter that is re-assigned on one path only and read afterwards (it is used: renaming it changes the other path)
+              ('if', [(('call', 'cc', []), [('assign', 'pc', ('num', 2))])], None),
+              ('expr', ('call', 'systemLog', [('bin', '+', ('str', 'pc='), ('var', 'pc'))])),
               ('assign', 'fl', ('not', ('call', 'cc', []))), ('if', [(('var', 'fl'), [('expr', ('call', 'systemLog', [('str', 'fl')]))])], None),
               ('assign', 'wl', ('num', 0)), ('while', ('bin', '<', ('var', 'wl'), ('num', 1)), [('expr', ('call', 'systemLog', [('str', 'wl')])), ('break',)])] + inner),
-            ('assign', 'rr', ('call', 'hh', [('num', 7), ('num', 8)])),
+            ('assign', 'rr', ('call', 'hh', [('num', 7), ('num', 8), ('num', 9)])),
             ('expr', ('call', 'systemLog', [('bin', '+', ('str', 'rr='), ('var', 'rr'))]))]
 
 
@@ -401,6 +404,61 @@ def structured_cases(tier):
     return out
 
 
+# ---------------------------------------------------------------- expression statements (pointless or not)
+
+def expr_trees(n):
+    """Every expression tree with exactly n internal nodes over {+, &&, unary -, !, group} and leaves {call, 0, x}."""
+    leaves = [{'function': {'name': 'systemLog', 'args': [{'string': 'note'}]}}, {'number': 0}, {'variable': 'x'}]
+    if n == 0:
+        return leaves
+    out = []
+    for sub in expr_trees(n - 1):
+        out.append({'unary': {'op': '-', 'expr': sub}})
+        out.append({'unary': {'op': '!', 'expr': sub}})
+        out.append({'group': sub})
+    for k in range(n):
+        for left in expr_trees(k):
+            for right in expr_trees(n - 1 - k):
+                for op in ('+', '&&'):
+                    out.append({'binary': {'op': op, 'left': left, 'right': right}})
+    return out
+
+
+def all_expr_trees(maxn):
+    out = []
+    for n in range(maxn + 1):
+        out.extend(expr_trees(n))
+    return out
+
+
+def check_exprstmt(case, acc):
+    trees = all_expr_trees(case['maxn'])
+    e = copy.deepcopy(trees[case['i']])
+    stmt = {'expr': {'expr': e}}
+    after = {'expr': {'expr': {'function': {'name': 'systemLog', 'args': [{'string': 'after'}]}}}}
+    if case['scope'] == 'global':
+        model = {'statements': [stmt, after, {'return': {'expr': {'variable': 'x'}}}]}
+    else:
+        model = {'statements': [{'function': {'name': 'hh', 'statements': [stmt, after, {'return': {'expr': {'number': 1}}}]}},
+                                {'expr': {'name': 'x', 'expr': {'function': {'name': 'hh', 'args': []}}}}, {'return': {'expr': {'variable': 'x'}}}]}
+    cls = purity_and_exactness(model, case, acc)
+    if cls is None:
+        return
+    justify(model, cls, case, acc, jump_runner, 0)
+
+
+def fam_exprstmt(arg):
+    maxn, idxs = arg
+    acc = Acc('exprstmts')
+    for i in idxs:
+        for scope in ('global', 'function'):
+            acc.cases += 1
+            check_exprstmt({'maxn': maxn, 'i': i, 'scope': scope}, acc)
+    if idxs:
+        acc.sample({'expression': all_expr_trees(maxn)[idxs[len(idxs) // 2]]})
+    return acc.result()
+
+
 # ---------------------------------------------------------------- shipped scripts
 
 def shipped_files():
@@ -438,7 +496,11 @@ def families(tier):
             shards.append((length, firsts))
     sc = structured_cases(tier)
     files = shipped_files()
+    maxn = 2 if tier == 'quick' else 3
+    ntrees = len(all_expr_trees(maxn))
     return [
+        Family('exprstmts', fam_exprstmt, [(maxn, idxs) for idxs in split(list(range(ntrees)), 32)],
+               f'every expression tree with <= {maxn} internal nodes over {{+, &&, unary -, !, group}} and leaves {{logging call, 0, x}} as an expression statement, at global scope and inside a function: a "pointless" verdict is justified by deleting the statement', expected=2 * ntrees),
         Family('jumpmodels', fam_jump, shards, f'every list of length <= {maxlen} over the {nq}-statement alphabet (C08 alphabet + dangling jumps, third label, pointless statement, 7 function statements with duplicate names/arguments and label-bearing bodies)',
                expected=sum(nq ** k for k in range(maxlen + 1))),
         Family('structured', fam_structured, split(sc, 48), 'parsed nesting chains (depth per tier) and every small program wrapped in a function with an unused argument, an unused variable and a pointless statement', expected=len(sc)),
@@ -446,7 +508,7 @@ def families(tier):
     ]
 
 
-_CHECKS = {'jumpmodels': check_jump, 'structured': check_structured, 'shipped': check_shipped}
+_CHECKS = {'jumpmodels': check_jump, 'structured': check_structured, 'shipped': check_shipped, 'exprstmts': check_exprstmt}
 
 
 def replay(family, case):
